@@ -59,6 +59,7 @@ type Scenario struct {
 	Msgs        []gen.Recipe `json:"msgs,omitempty"`
 	InitialMAC  bool         `json:"initial_mac,omitempty"`
 	TimersFirst bool         `json:"timers_first,omitempty"`
+	TsigErr     int          `json:"tsig_err,omitempty"`     // the first message's TSIG carries this error code (18 = BADTIME, with six octets of other data): covered by the MAC like every other variable, and no excuse for a stale time
 	DefaultTime bool         `json:"default_time,omitempty"` // the stub TSIG carries time 0 ("now") and the MAC comes from a provider that takes 1.2 s of simulated time
 	Parallel    int          `json:"parallel,omitempty"`     // kind parallel: that many signer/verifier tasks share one key and algorithm
 	Events      []Event      `json:"events,omitempty"`
@@ -139,7 +140,13 @@ func Gen(seed uint64, tier string) any {
 				sc.Exch[i].Xfr, sc.Exch[i].Reuse = false, true
 			}
 		}
-		if sc.Transport == "tcp" && core.Chance(r, 55) {
+		if sc.Transport == "tcp" && sc.ServerKey == "right" && core.Chance(r, 10) {
+			// a request that reaches the server stale: correctly signed, outside the window (BADTIME territory)
+			sc.Ops = append(sc.Ops, common.FrameOp{Dir: "c2s", Env: r.IntN(n), Kind: "delay", DelayS: sc.Fudge + 1 + r.IntN(3)})
+			for i := range sc.Exch {
+				sc.Exch[i].Signed, sc.Exch[i].Xfr = true, false
+			}
+		} else if sc.Transport == "tcp" && core.Chance(r, 55) {
 			nf := 1 + r.IntN(2)
 			for i := 0; i < nf; i++ {
 				op := common.FrameOp{Dir: core.Pick(r, "c2s", "s2c"), Env: r.IntN(n), Kind: core.Pick(r, "flip", "flip", "unsign", "wrongkey", "nokey", "delay", "dup")}
@@ -174,6 +181,9 @@ func Gen(seed uint64, tier string) any {
 	sc.InitialMAC = core.Chance(r, 50)
 	sc.TimersFirst = core.Chance(r, 10)
 	sc.DefaultTime = core.Chance(r, 12)
+	if !sc.DefaultTime && core.Chance(r, 15) {
+		sc.TsigErr = core.Pick(r, 18, 18, 23)
+	}
 	if sc.DefaultTime {
 		sc.SkewS = 0
 	}
@@ -400,6 +410,15 @@ func runBare(sc *Scenario, res *core.Result, verbose bool) {
 			res.Bump("fault.slow_tsig_provider")
 		} else {
 			m.SetTsig(keyName, sc.Alg, uint16(sc.Fudge), signT)
+			if sc.TsigErr != 0 && i == 0 && !timers {
+				if stub := m.IsTsig(); stub != nil {
+					stub.Error = uint16(sc.TsigErr)
+					if sc.TsigErr == dns.RcodeBadTime {
+						stub.OtherLen, stub.OtherData = 6, fmt.Sprintf("%012x", uint64(signT)+7)
+					}
+					res.Bump("fault.tsig_error_field_set")
+				}
+			}
 			out, mac, err = dns.TsigGenerate(m, secretGood, prior, timers)
 		}
 		res.Bump("oracle.G2_generated_shape")
@@ -840,6 +859,16 @@ func (s *sess) ServeDNS(w dns.ResponseWriter, r *dns.Msg) {
 	m.SetReply(r)
 	if ts := r.IsTsig(); ts != nil && st == nil {
 		m.SetTsig(ts.Hdr.Name, ts.Algorithm, ts.Fudge, time.Now().Unix())
+	} else if ts != nil && st == dns.ErrTime {
+		// RFC 8945 5.2.3: a correctly signed request outside the time window is answered
+		// NOTAUTH / BADTIME, signed, with the client's time repeated and the server's in other data
+		m.Rcode = dns.RcodeNotAuth
+		m.SetTsig(ts.Hdr.Name, ts.Algorithm, ts.Fudge, int64(ts.TimeSigned))
+		if stub := m.IsTsig(); stub != nil {
+			stub.Error = dns.RcodeBadTime
+			stub.OtherLen, stub.OtherData = 6, fmt.Sprintf("%012x", uint64(time.Now().Unix()))
+		}
+		s.k.Bump("probe.badtime_reply_signed")
 	}
 	w.WriteMsg(m)
 }
@@ -1134,11 +1163,25 @@ func (s *sess) judge() {
 				if !rhas {
 					continue
 				}
-				accepted := false
+				accepted, stale := false, false
 				for _, sv := range s.srvSeen {
 					if sv.id == id && sv.status == "" && sv.hasSig {
 						accepted = true
 					}
+					if sv.id == id && sv.status == dns.ErrTime.Error() && sv.hasSig {
+						stale = true
+					}
+				}
+				if stale && !accepted && ts.Error == 18 {
+					// the BADTIME answer to a stale but correctly signed request is signed over that request's MAC
+					if ok, judgable := oracle.MACMatches(f, srvSecrets[ts.KeyName], rt.MAC, false); judgable {
+						res.Bump("oracle.G3_badtime_reply_covers_request_mac")
+						if !ok {
+							res.Fail("G3", "badtime-reply-mac", "the server answered the stale request id %d with a signed BADTIME reply whose MAC is not the RFC 8945 HMAC over that request's MAC and the reply", id)
+							return
+						}
+					}
+					continue
 				}
 				if !accepted {
 					continue
